@@ -43,7 +43,7 @@ def run_ensemble(rng, obs):
         if rng.random() < 0.6:
             nbins = tuple(rng.randint(1, 3) for _ in range(dim)); nmem = int(np.prod(nbins))
         else:
-            nbins = rng.choice([2, 3, 4, 6]); nmem = nbins
+            nbins = rng.choice([2, 3, 4, 5, 6, 7, 8, 9, 11, 12, 13]); nmem = nbins      # incl. primes: an integer is factorised over the axes, exactly
     else:
         nbins = None; nmem = rng.choice([2, 3, 4, 6])
     if which == 'sparsity': nmem = min(nmem, 3)
